@@ -166,6 +166,24 @@ Proof.
   apply distinct_rows_In in Hin. destruct Hin as [[]|Hin]. auto.
 Qed.
 
+Lemma dedup_keyed_In : forall l seen r, In r (dedup_keyed seen l) -> In r (map snd l).
+Proof.
+  induction l as [|[k x] l IH]; simpl; intros seen r H; [contradiction|].
+  match type of H with context [if ?b then _ else _] => destruct b end.
+  - right. eauto.
+  - destruct H as [<-|H]; auto. right. eauto.
+Qed.
+
+Lemma wf_drop_duplicates : forall f cols p, wf f -> drop_duplicates f cols = Ok p -> wf_pre p.
+Proof.
+  intros f cols p Hf H. unfold drop_duplicates in H. inv_bind H as kvs Hkvs. inversion H; subst.
+  apply same_schema_wf; auto. destruct Hf as [_ Hf]. rewrite Forall_forall in *. intros r Hin.
+  apply dedup_keyed_In in Hin. apply in_map_iff in Hin. destruct Hin as [[k r'] [E Hin]]. simpl in E. subst r'.
+  destruct (mapM_In _ _ _ _ Hkvs Hin) as [r0 [Hr0 Hq]].
+  inv_bind Hq as k' Hk'. inv_bind Hq as vs Hvs. inversion Hq; subst.
+  split; simpl; auto. apply mapM_length in Hvs. rewrite Hvs. destruct (Hf _ Hr0) as [-> _]. reflexivity.
+Qed.
+
 (* for EVERY sampler decision function *)
 Lemma wf_sample : forall mult f p, wf f -> sample_with mult f = Ok p -> wf_pre p.
 Proof.
